@@ -8,7 +8,7 @@ cd /repo || exit 2
 if ! git diff --quiet; then echo "refusing: /repo has uncommitted changes"; exit 2; fi
 cleanup() { git -C /repo checkout -- . ; }
 trap cleanup EXIT
-if ! git apply "$PATCH"; then echo "$(basename "$PATCH") DOES-NOT-APPLY"; exit 2; fi
+if ! git apply "$PATCH" 2>/dev/null && ! git apply --3way "$PATCH" 2>/dev/null; then echo "$(basename "$PATCH") DOES-NOT-APPLY"; exit 2; fi; git reset -q 2>/dev/null
 rm -rf /dev/shm/verif-mut; mkdir -p /dev/shm/verif-mut/replays
 cp /verif/known_findings.json /dev/shm/verif-mut/ 2>/dev/null
 [ -d /verif/replays/regress ] && cp -r /verif/replays/regress /dev/shm/verif-mut/replays/
